@@ -364,10 +364,73 @@ def r12_xy(run, fx):
                      "boundary is cut, the Y deltas are lost or shifted" % (len(reads), "" if doubled else " none of which asks for 2*n deltas"), "%s:%s" % (b.file, b.line))
 
 
+# Record layouts of the variation tables as the OpenType specification gives them: (width in bytes, struct field the value must end up in | None).
+# Only the fixed prefix that the reader consumes before its first data-dependent branch is compared.
+VAR_LAYOUTS = {
+    "<tables::variable_fonts::hvar::HvarTable<'_> as binary::read::ReadBinary>::read": (
+        "HVAR header", [(2, "major_version"), (2, "minor_version"), (4, "item_variation_store"), (4, "advance_width_mapping"), (4, "lsb_mapping"), (4, "rsb_mapping")]),
+    "<tables::variable_fonts::ItemVariationStore<'_> as binary::read::ReadBinary>::read": (
+        "ItemVariationStore header", [(2, None), (4, "variation_region_list"), (2, "item_variation_data")]),
+    "<tables::variable_fonts::ItemVariationData<'_> as binary::read::ReadBinary>::read": (
+        "ItemVariationData header", [(2, "item_count"), (2, "word_delta_count"), (2, "region_index_count")]),
+    "<tables::variable_fonts::VariationRegionList<'_> as binary::read::ReadBinary>::read": (
+        "VariationRegionList header", [(2, None), (2, None)]),
+    "<tables::variable_fonts::fvar::FvarTable<'b> as binary::read::ReadBinary>::read": (
+        "fvar header", [(2, "major_version"), (2, "minor_version"), (2, None), (2, None), (2, None), (2, None), (2, "instance_count"), (2, "instance_size")]),
+    "<tables::variable_fonts::fvar::InstanceRecord<'_> as binary::read::ReadBinaryDep>::read_dep": (
+        "fvar InstanceRecord", [(2, "subfamily_name_id"), (2, "flags")]),
+    "<tables::variable_fonts::gvar::GvarTable<'_> as binary::read::ReadBinary>::read": (
+        "gvar header", [(2, None), (2, None), (2, None), (2, None), (4, None), (2, None), (2, None), (4, None)]),
+    "<tables::variable_fonts::mvar::MvarTable<'_> as binary::read::ReadBinary>::read": (
+        "MVAR header", [(2, None), (2, None), (2, None), (2, None), (2, None), (2, None)]),
+    "<tables::variable_fonts::avar::AvarTable<'_> as binary::read::ReadBinary>::read": (
+        "avar header", [(2, None), (2, None), (2, None), (2, None)]),
+    "<tables::variable_fonts::stat::StatTable<'b> as binary::read::ReadBinary>::read": (
+        "STAT header", [(2, None), (2, None), (2, None), (2, None), (4, None)]),
+    "<tables::variable_fonts::cvar::CvarTable<'_> as binary::read::ReadBinaryDep>::read_dep": (
+        "cvar header", [(2, "major_version"), (2, "minor_version")]),
+}
+
+
+def r12_l(run, fx, floors):
+    import layout
+    rule = "R12-L"
+    run.rule(rule, "the readers of the variation tables consume the records the OpenType specification lays out: for HVAR, ItemVariationStore, "
+                   "ItemVariationData, VariationRegionList, fvar (header, InstanceRecord), gvar, MVAR, avar, STAT and cvar the sequence of fixed-width "
+                   "reads before the first data-dependent branch has the specified widths, and where a value is kept in a struct field it is the "
+                   "field of that name (an offset read fourth and stored as the third mapping selects another table)")
+    n = 0
+    for path, (what, spec) in sorted(VAR_LAYOUTS.items()):
+        b = fx.body(path)
+        if b is None:
+            if floors:
+                run.anchor_missing(rule, path)
+            continue
+        items, why = layout.reader_items(fx, b)
+        items = [it for it in items if it.kind in ("prim", "type")]
+        n += 1
+        probs = []
+        if len(items) < len(spec):
+            probs.append("only %d fixed-width reads before %s, the specification has %d" % (len(items), why, len(spec)))
+        for k, ((w, fld), it) in enumerate(zip(spec, items)):
+            if it.width != w:
+                probs.append("item %d is %s bytes wide, the specification says %d" % (k, it.width, w))
+            elif fld and it.field and it.field != fld:
+                probs.append("item %d (%d bytes) ends up in `%s`, the specification's item %d is `%s`" % (k, w, it.field, k, fld))
+        if probs:
+            run.fail(rule, "layout:%s" % what, "%s (%s): %s" % (what, path, "; ".join(probs)), "%s:%s" % (b.file, b.line))
+        else:
+            run.ok(rule, "%s: %s" % (what, " | ".join(it.show() for it in items[:len(spec)])))
+    if floors and n < len(VAR_LAYOUTS):
+        run.anchor_missing(rule, "%d variation table readers (found %d)" % (len(VAR_LAYOUTS), n))
+
+
 def check(run, fx, tier, floors=True):
     if floors or fx.body("<tables::variable_fonts::mvar::MvarTable<'_> as binary::read::ReadBinary>::read") is not None:
         r12_s(run, fx)
     r12_p(run, fx)
+    if floors or any(fx.body(p) is not None for p in VAR_LAYOUTS):
+        r12_l(run, fx, floors)
     r12_t(run, fx, floors)
     r12_v(run, fx)
     r12_d(run, fx)
